@@ -71,6 +71,7 @@ EXPECT = {
     'SC1': [('FixtureLint::Radius', 'calp,salp')],
     'POS1': [('FixtureLint::Trim', 'end')],
     'DZ1': [('FixtureSphere::Jn', '/_e2')],
+    'DEAD1': [('FixtureLint::Hemi', 'arm@')],
     'CP1': [('FixtureLint::Pad', 'easting/northing')],
     'X7r': [('FixtureShared::HalfFilled', 'alpha_')],
     'K7': [('FixtureRaster::probe', 'B1 filepos column')],
@@ -179,6 +180,9 @@ def run_controls(rules):
         elif r == 'DZ1':
             from .rules import lint
             res = lint.rule_DZ1(fx, None)[0]
+        elif r == 'DEAD1':
+            from .rules import lint
+            res = lint.rule_DEAD1(fx, None)[0]
         elif r == 'CP1':
             from .rules import lint
             res = lint.rule_CP1(fx, None)[0]
